@@ -29,6 +29,7 @@ pub mod cmd_alu;
 pub mod cmd_decode;
 pub mod cmd_load;
 pub mod cmd_debug;
+pub mod cmd_ppu;
 
 fn main() {
   let args: Vec<String> = std::env::args().collect();
@@ -53,6 +54,7 @@ fn main() {
     "cache-pressure" => cmd_machine::cache_pressure(&args[2..]),
     "load" => cmd_load::run(&args[2..]),
     "debug" => cmd_debug::run(&args[2..]),
+    "ppu" => cmd_ppu::run(&args[2..]),
     "version" => println!("gbv jit={}", cfg!(feature = "jit")),
     _ => { eprintln!("usage: gbv <command> ..."); std::process::exit(2); }
   }
